@@ -19,8 +19,12 @@ RULE = (
     "device-answer sequence and must give the effect trace of the reference executor (a jump to the wrong construct changes or loses "
     "effects; jr jump-table targets are exercised for every index).  Non-trivial case = >= 2 distinct effect traces explored."
 )
+RULE += (
+    " Also NAMECLASH: a function whose name is also a device name string, a word of one, a hashed string, a logic type, a slot type or a batch method used in the same program (10 names x up to 9 uses x 3 placements); the relation oracle resolves a label only in jump-target operands and in the source operand of 'move'."
+)
 ASSUME = [
     "reference IC10 machine M and reference executor R as in C01; M resolves labels by exact token match (never by regex)",
+    "in an operand position that takes a logic type / slot type / batch method, M reads a name as the enumeration member even if a label of the same spelling exists (function named 'Setting')",
 ]
 
 JUMPS = {op: [i for i, k in enumerate(kinds) if k == "l"] for op, kinds in ISA.items() if "l" in kinds}
@@ -55,7 +59,12 @@ def static_and_relation(lab_text, nolab_text):
                 continue
             if tgt not in defs:
                 return ("jump-unresolved", f"labelled: {' '.join(t)} -- no such label")
-    expected = [[(str(defs[x]) if (k > 0 and x in defs) else x) for k, x in enumerate(t)] for t in instr]
+    # a label is resolved only where an instruction takes a line number: the jump / branch target operand, and the source of
+    # 'move' (the address of a list loop body); the same text as a logic type, inside HASH("..") or in a comment is not a label
+    def is_target(t, k):
+        return (k - 1) in JUMPS.get(t[0], ()) or (t[0] == "move" and k == 2)
+
+    expected = [[(str(defs[x]) if (k > 0 and x in defs and is_target(t, k)) else x) for k, x in enumerate(t)] for t in instr]
     N = [tokenize(l)[0] for l in nolab_text.split("\n")]
     for i, t in enumerate(N):
         if not t:
@@ -132,6 +141,8 @@ def build_cases(tier):
         fam = "W-F05b" if is_f05b(c["names"]) else c["family"]
         vv = v4 if c["family"] != "NAMESINL-TERM" else [v for v in v4 if v["inline_functions"]]  # terminating main: nothing may be out of line (F-07)
         cases.append(dict(c, family=fam, variants=vv, bases=[{"inline_functions": True}] if c["family"] == "NAMESINL-TERM" else None))
+    for c in F.names_clash():
+        cases.append(dict(c, variants=v4))
     trip = F.names_triples(step=1 if tier == "thorough" else 9)
     for c in trip:
         fam = "W-F05b" if is_f05b(c["names"]) else c["family"]
